@@ -74,6 +74,17 @@ META = {
                   "and for the vertex-based field the vertex bases and transport angles of SurfaceConnectionVertices (they rescale "
                   "corner angles, not a field operation). A step computed on verified stale geometry caches (known finding) is not an "
                   "instance of the model and gets no kernel term. "
+                  "Deliberately left free (never a concrete violation; at most an unproved obligation when the regenerated model changes): "
+                  "the tangent bases of faces / vertices (any direct orthonormal basis of the tangent plane: the oracle rebuilds the "
+                  "operator in the bases the implementation chose), which linear solver is used and whether scipy's spsolve is called "
+                  "(the oracle solves its own system and judges the final field), the exception class / message of any refusal and "
+                  "whether a stage called before initialize() is refused at all, how many times initialize / optimize actually run "
+                  "under a protocol, the stored per-edge rotations ('angles') and the branch-matching rule behind them (only the "
+                  "indices are judged: quantum, sum, history), extra attributes left on the mesh, log lines and warnings, dtypes and "
+                  "scalar types of outputs, which of its feature edges a face with several of them follows and how a vertex measures "
+                  "the direction of its feature edge (extrinsic projection or the connection's own angle), the eigenvector returned "
+                  "on closed surfaces (any unit field), last-bit float differences (tolerances 1e-9 relative; 1e-6 on directions "
+                  "compared with the oracle's own solve). "
                   "Floating-point round-off is outside the theorems (they are over fields); cad_correction / TrivialConnection "
                   "(OSQP) are outside the property's quantifier and not run.",
 }
@@ -264,6 +275,9 @@ def shrink_case(case, fails_with):
     return cur
 
 
+NOTES = []     # (key, message) about things the property leaves free - evidence only
+
+
 def oracle_on(case, res):
     """-> list of (key, message[, extra])"""
     if not res["ok"]:
@@ -275,7 +289,7 @@ def oracle_on(case, res):
         except Exception as ex:  # noqa
             return [("crash", "the implementation raised %s (and the crash could not be classified: %r)" % (res["obs"]["crash"]["error"], ex))]
     try:
-        return ORA.check(case, res["obs"])
+        return ORA.check(case, res["obs"], NOTES)
     except Exception as ex:  # noqa - malformed observation
         return [("oracle-crash", "oracle could not evaluate the observation: %r" % ex)]
 
@@ -449,6 +463,10 @@ def run(ctx):
         for key, msg in ORA.compare_runs(c1, r1["obs"], c2, r2["obs"], vperm, fperm):
             fails.append((i, key, msg + " [mesh %s, %s]" % (c1["kind"], c1["elem"])))
     ctx.count("metamorphic pairs", n_meta_checked)
+    for k in sorted(set(k for k, _ in NOTES)):
+        ctx.count("left free by the property, observed: " + k, sum(1 for kk, _ in NOTES if kk == k))
+    if NOTES:
+        ctx.notes.append("observations about behaviour the property leaves free (never a violation): %s" % sorted(set(m[:160] for _, m in NOTES))[:4])
     unknown = [(i, k, m) for i, k, m in fails if not ctx.known(k)]
     ctx.obligation("oracle: unit modulus, constraints kept and tangent, Hermitian operator, flat = scalar, harmonic residual, "
                    "index sum/quantum/history, renumbering metamorphic test on %d bordered pairs (independent numpy restatement); "
@@ -490,11 +508,8 @@ def run(ctx):
         sterms = ["(%s, %s, %s, %s)" % (coq_bool(cases[i]["elem"] == "faces"), PROTO[results[i]["obs"]["protocol"]],
                                        zlit(results[i]["obs"]["stage_calls"][0]), zlit(results[i]["obs"]["stage_calls"][1])) for i in sidx]
         bad_s = ctx.run_cases("stages", HEADER, sterms, "check_stages", case_type="(bool * list call * Z * Z)", shard=400, timeout=300)
-        for k in (bad_s or []):
-            i = sidx[k]
-            fails.append((i, "stages/count", "protocol %s on a %s field ran initialize %d and optimize %d time(s), the model of run() and of the "
-                          "flags says otherwise" % (results[i]["obs"]["protocol"], cases[i]["elem"], results[i]["obs"]["stage_calls"][0],
-                                                    results[i]["obs"]["stage_calls"][1])))
+        # (a stage-count mismatch is a broken correspondence of the run() model, not a failing input: how often the stages run is
+        #  not something the property fixes - the field after the protocol is judged by the oracle)
         # the input class of the known crash is a statement about the MODEL's operator: kernel-checked per case
         if crash_cls:
             pterms = [parallel_term(cases[i], results[i]["obs"], fld) for i, fld in crash_cls]
